@@ -713,6 +713,9 @@ class IH5Group(IH5InnerNode):
             return
         if self._abs_path(source) == "/":
             raise ValueError("Cannot move the root group!")  # (copy would work, delete not)
+        if self._abs_path(dest).startswith(self._abs_path(source) + "/"):
+            # (the copy would be deleted together with the source)
+            raise ValueError(f"Cannot move {source} into itself!")
         self.copy(source, dest)
         del self[source]
 
